@@ -192,7 +192,7 @@ def main(tier):
     rep = H.Report(PROP, tier)
     prog = H.get_program()
     rng = H.rng(PROP)
-    D = 9 if tier == 'quick' else 16
+    D = 9 if tier == 'quick' else 13
     tasks = []
     for mode in MODES:
         for p in range(1, D + 6):
@@ -203,30 +203,38 @@ def main(tier):
             for form in ('&BigDecimal', "BigDecimalRef<'_>", '&num_bigint::BigInt'):
                 tasks.append({'kind': 'round_decimal_ref', 'D': D, 'p': p, 'mode': mode, 'form': form})
     # long inputs (more than p+20 digits) through every precision-rounding entry point
-    DL = 26 if tier == 'quick' else 40
+    DL = 26 if tier == 'quick' else 32
     for mode in ('HalfEven', 'Up', 'Ceiling', 'Floor', 'HalfDown') if tier == 'quick' else MODES:
-        for p in (1, 4) if tier == 'quick' else (1, 2, 4, 9, 17):
+        for p in (1, 4) if tier == 'quick' else (1, 4, 9):
             tasks.append({'kind': 'with_precision_round', 'D': DL, 'p': p, 'mode': mode, 'Lmin': DL - 3})
             tasks.append({'kind': 'round_decimal', 'D': DL, 'p': p, 'mode': mode, 'Lmin': DL - 3})
             tasks.append({'kind': 'round_with_context', 'D': DL, 'p': p, 'mode': mode, 'Lmin': DL - 3})
             for form in ('&BigDecimal', "BigDecimalRef<'_>", '&num_bigint::BigInt'):
                 tasks.append({'kind': 'round_decimal_ref', 'D': DL, 'p': p, 'mode': mode, 'form': form, 'Lmin': DL - 3})
+    # padding far beyond the digit count (precision at the narrowing-cast boundaries) through every entry point
+    for p in [100, 255, 256, 257, 258, 270, 275, 276, 300, 511, 512, 513, 1000, 65535, 65536, 65537]:
+        tasks.append({'kind': 'with_prec', 'D': 3, 'p': p})
+        for mode in ('HalfEven', 'Up'):
+            tasks.append({'kind': 'with_precision_round', 'D': 3, 'p': p, 'mode': mode})
+            tasks.append({'kind': 'round_decimal', 'D': 3, 'p': p, 'mode': mode})
+            tasks.append({'kind': 'round_with_context', 'D': 3, 'p': p, 'mode': mode})
+            tasks.append({'kind': 'round_decimal_ref', 'D': 3, 'p': p, 'mode': mode, 'form': ('&BigDecimal', "BigDecimalRef<'_>", '&num_bigint::BigInt')[p % 3]})
     # real digit-counting body (no contract) on a smaller bound
     for mode in ('HalfEven', 'Up'):
         for p in (1, 2, 5):
             tasks.append({'kind': 'with_precision_round', 'D': 6, 'p': p, 'mode': mode, 'contracts': False})
-    Dp = 12 if tier == 'quick' else 40
+    Dp = 12 if tier == 'quick' else 30
     for p in range(1, Dp + 3):
         tasks.append({'kind': 'with_prec', 'D': Dp, 'p': p})
-    Ds = 4 if tier == 'quick' else 7
+    Ds = 4 if tier == 'quick' else 6
     forms = [('&BigDecimal', '&BigDecimal'), ("BigDecimalRef<'_>", "BigDecimalRef<'_>"), ('&BigDecimal', "BigDecimalRef<'_>")]
     for mode in MODES if tier == 'thorough' else ('HalfEven', 'Up', 'Floor'):
-        for g in (0, 1, -2, 3) if tier == 'quick' else range(-6, 7):
-            for p in (1, 2, 3, 5) if tier == 'quick' else range(1, 10):
+        for g in (0, 1, -2, 3) if tier == 'quick' else range(-4, 5):
+            for p in (1, 2, 3, 5) if tier == 'quick' else range(1, 8):
                 for fi, form in enumerate(forms):
                     tasks.append({'kind': 'add_refs' if (fi + p) % 2 == 0 else 'add_refs_into', 'D': Ds, 'p': p, 'mode': mode, 'g': g, 'form': form})
     rep.required_labels = {'rounds', 'pads', 'sum needs more than p digits'}
-    rep.bounds = {'digits_D': D, 'with_prec_digits': Dp, 'sum_operand_digits': Ds, 'p': '1..D+5', 'modes': MODES, 's0': 'symbolic |s0| <= 2^60'}
+    rep.bounds = {'digits_D': D, 'with_prec_digits': Dp, 'sum_operand_digits': Ds, 'p': '1..D+5, plus padding at p = 100, 255..258, 270, 275, 276, 300, 511..513, 1000, 65535..65537 on 3-digit inputs', 'modes': MODES, 's0': 'symbolic |s0| <= 2^60'}
     rep.assumptions = ['digit counting (count_decimal_digits*) and get_rounding_term replaced by their contracts (decided for the real bodies in C18 / here at D=6 without contracts)',
                        'num-bigint digit conversion contracts as in C06']
     rep.outside = ['more than D digits', 'precision overflow panic region (|scale| near i64 limits)']
